@@ -383,6 +383,96 @@ pub fn flatten(c: &CircuitType) -> Vec<u64> {
     v
 }
 
+/// Inverse of `flatten` (kind 'S' = SSA, 'R' = register); used for circuits that come back from
+/// the receiver / party built with default cargo features (crate /verif/plain).
+pub fn unflatten(kind: char, v: &[u64]) -> Option<CircuitType> {
+    let mut i = 0usize;
+    let mut next = |i: &mut usize| -> Option<u64> {
+        let x = v.get(*i).copied();
+        *i += 1;
+        x
+    };
+    if kind == 'S' {
+        let np = next(&mut i)? as usize;
+        let mut input_gates = vec![];
+        for _ in 0..np {
+            input_gates.push(next(&mut i)? as usize);
+        }
+        let ng = next(&mut i)? as usize;
+        let mut gates = Vec::with_capacity(ng.min(1 << 22));
+        for _ in 0..ng {
+            let (t, a, b) = (next(&mut i)?, next(&mut i)? as usize, next(&mut i)? as usize);
+            gates.push(match t {
+                1 => Gate::Xor(a, b),
+                2 => Gate::And(a, b),
+                _ => Gate::Not(a),
+            });
+        }
+        let no = next(&mut i)? as usize;
+        let mut output_gates = vec![];
+        for _ in 0..no {
+            output_gates.push(next(&mut i)? as usize);
+        }
+        Some(CircuitType::Ssa(Circuit { input_gates, gates, output_gates }))
+    } else {
+        let np = next(&mut i)? as usize;
+        let mut input_regs = vec![];
+        for _ in 0..np {
+            input_regs.push(next(&mut i)? as usize);
+        }
+        let ni = next(&mut i)? as usize;
+        let mut insts = Vec::with_capacity(ni.min(1 << 22));
+        for _ in 0..ni {
+            let (out, t, a, b) = (next(&mut i)? as u32, next(&mut i)?, next(&mut i)?, next(&mut i)?);
+            let op = match t {
+                1 => rc::Op::Xor(rc::Xor(rc::Reg(a as u32), rc::Reg(b as u32))),
+                2 => rc::Op::And(rc::And(rc::Reg(a as u32), rc::Reg(b as u32))),
+                3 => rc::Op::Not(rc::Not(rc::Reg(a as u32))),
+                _ => rc::Op::Input(rc::Input { party: a as u32, input: b as u32 }),
+            };
+            insts.push(rc::Inst { out: rc::Reg(out), op });
+        }
+        let max_reg_count = next(&mut i)? as usize;
+        let no = next(&mut i)? as usize;
+        let mut output_regs = vec![];
+        for _ in 0..no {
+            output_regs.push(rc::Reg(next(&mut i)? as u32));
+        }
+        let and_ops = next(&mut i)? as usize;
+        Some(CircuitType::Register(rc::Circuit { input_regs, insts, max_reg_count, output_regs, and_ops }))
+    }
+}
+
+pub fn hex(b: &[u8]) -> String {
+    let mut s = String::with_capacity(b.len() * 2);
+    for x in b {
+        s.push_str(&format!("{x:02x}"));
+    }
+    s
+}
+
+/// Every child process of the simulator: dies with its parent (a killed worker must not leave a
+/// runaway child behind that eats a core for hours) and has a CPU budget of its own.
+pub fn child_command<S: AsRef<std::ffi::OsStr>>(exe: S) -> std::process::Command {
+    use std::os::unix::process::CommandExt;
+    let mut cmd = std::process::Command::new(exe);
+    unsafe {
+        cmd.pre_exec(|| {
+            libc::prctl(libc::PR_SET_PDEATHSIG, libc::SIGKILL);
+            let cpu = libc::rlimit { rlim_cur: 1800, rlim_max: 1800 };
+            libc::setrlimit(libc::RLIMIT_CPU, &cpu);
+            let z = libc::rlimit { rlim_cur: 0, rlim_max: 0 };
+            libc::setrlimit(libc::RLIMIT_CORE, &z);
+            Ok(())
+        });
+    }
+    cmd
+}
+
+pub fn plain_bin() -> Option<std::path::PathBuf> {
+    std::env::var("VERIF_PLAIN_BIN").ok().map(std::path::PathBuf::from).filter(|p| p.exists())
+}
+
 #[derive(Clone, Debug, PartialEq, Eq, Serialize, Deserialize)]
 pub enum Outcome {
     /// digest of the circuit, number of gates/instructions
